@@ -8,6 +8,17 @@ from .tlc import run_tlc
 MISSING = object()
 
 
+class _Listener:
+    """simulator listener: what a user sees between the cycles of a multi-cycle clk() call"""
+
+    def __init__(self, wires):
+        self.wires = wires
+        self.seen = []
+
+    def simulatorUpdated(self):
+        self.seen.append([w.get() for w in self.wires])
+
+
 def leaf_state(lf):
     k = type(lf).__name__
     if k == 'Reg':
@@ -69,6 +80,8 @@ def record(hw, wires, leaves, schedule, net, v0=None, probe=None):
             return {'net': strip(net), 'v0': v0 or [0] * len(wires),
                     'steps': [{'act': 'sim', 'status': 'raised', 'vals': []}]}
         steps.append({'act': 'sim', 'status': 'idle', 'vals': [w.get() for w in wires]})
+        lis = _Listener(wires)
+        sim.addListener(lis)
         for s in schedule:
             if s[0] == 'poke':
                 wires[s[1]].put(s[2])
@@ -77,10 +90,13 @@ def record(hw, wires, leaves, schedule, net, v0=None, probe=None):
                 _, n, dorder, lorder = s
                 if dorder is not None:
                     impose_order(sim, leaves, dom_of, dorder, lorder)
+                lis.seen = []
                 sim.clk(n)
                 steps.append({'act': 'clk', 'n': n, 'vals': [w.get() for w in wires],
                               'st': [leaf_state(l) for l in leaves], 'total': sim.total_clks,
-                              'prepared': len(Wire.prepared)})
+                              'prepared': len(Wire.prepared), 'notified': len(lis.seen)})
+                if n <= 3 and len(lis.seen) == n:
+                    steps[-1]['seen'] = lis.seen
                 if probe:
                     probe(sim, steps[-1])
     return {'net': strip(net), 'v0': v0 or [0] * len(wires), 'steps': steps}
